@@ -605,7 +605,17 @@ func checkJSONFields(r *engine.Report, rule string, n *types.Named, fields []str
 			probs = append(probs, "field "+f+" no longer exists")
 		}
 	}
-	r.Check(len(probs) == 0, rule, "persisted fields of "+n.Obj().Name(), "type "+n.Obj().Pkg().Name()+"."+n.Obj().Name(), "persisted fields are exported and not excluded from JSON", strings.Join(probs, "; "))
+	// the round trip relies on encoding/json's own symmetric treatment of exported fields; a hand-written
+	// codec on the persisted type replaces it on one or both sides
+	ms := types.NewMethodSet(types.NewPointer(n))
+	for _, m := range []string{"MarshalJSON", "UnmarshalJSON", "MarshalText", "UnmarshalText"} {
+		if sel := ms.Lookup(nil, m); sel != nil {
+			if fn, ok := sel.Obj().(*types.Func); ok && fn.Pkg() != nil && strings.HasPrefix(fn.Pkg().Path(), "tkestack.io/kvass") {
+				probs = append(probs, "hand-written "+m+" on the persisted type: what is read back is no longer what encoding/json wrote by construction")
+			}
+		}
+	}
+	r.Check(len(probs) == 0, rule, "persisted fields of "+n.Obj().Name(), "type "+n.Obj().Pkg().Name()+"."+n.Obj().Name(), "persisted fields are exported, not excluded from JSON, and encoded/decoded by encoding/json itself", strings.Join(probs, "; "))
 }
 
 func controlsC09(p *engine.Prog) []Control { return nil }
